@@ -62,7 +62,9 @@ def handle_number(number: func_xltypes.XlAnything, origin) -> Union[int, str]:
         as_str = str(int(number))
 
     elif isinstance(number, func_xltypes.Text):
-        as_str = str(number) if number else "0"
+        # An empty text reads as 0. (The truth value of a text is not its
+        # emptiness: "false" is an invalid digit string, not 0.)
+        as_str = str(number) if str(number) != '' else "0"
 
     if len(as_str) > 10:
         raise NumExcelError()
